@@ -185,6 +185,234 @@ def handmade(rng):
 
 
 # --------------------------------------------------------------------------------------------
+# hand-packed streams with HUGE exp-Golomb coded fields (own bit packer, NOT the project's writer)
+# --------------------------------------------------------------------------------------------
+class Packer(object):
+    """independent MSB-first bit packer"""
+    def __init__(self):
+        self.b = []
+
+    def bit(self, v):
+        self.b.append(1 if v else 0)
+
+    def nbits(self, n, v):
+        for i in range(n - 1, -1, -1):
+            self.b.append((v >> i) & 1)
+
+    def uint(self, v):
+        v += 1
+        for i in range(v.bit_length() - 2, -1, -1):
+            self.b.append(0)
+            self.b.append((v >> i) & 1)
+        self.b.append(1)
+
+    def sint(self, v):
+        self.uint(abs(v))
+        if v:
+            self.b.append(1 if v < 0 else 0)
+
+    def align(self, fill=0):
+        while len(self.b) % 8:
+            self.b.append(fill)
+
+    def bytes(self):
+        assert len(self.b) % 8 == 0
+        return [int("".join(map(str, self.b[i:i + 8])), 2) for i in range(0, len(self.b), 8)]
+
+
+def boundary(rng, kmax=200):
+    """2^k - 2, 2^k - 1, 2^k, 2^k + 1 and random k-bit values, mostly for large k"""
+    k = rng.choice([rng.randrange(1, 12), rng.randrange(30, 70), rng.randrange(40, kmax + 1), rng.randrange(40, kmax + 1)])
+    return max(0, rng.choice([(1 << k) - 2, (1 << k) - 1, 1 << k, (1 << k) + 1, rng.randrange(1 << (k - 1), 1 << k)]))
+
+
+def pack_unit(code, body, prev):
+    return parse_info_bytes(code, 13 + len(body), prev) + body
+
+
+def pack_sequence_header(rng, huge, profile=3, major=3, width=None, height=None):
+    """sequence_header body; `huge`: every exp-Golomb field gets a boundary value"""
+    def v(small):
+        return boundary(rng) if huge else small
+    p = Packer()
+    p.uint(major if not huge or rng.random() < 0.7 else boundary(rng))
+    p.uint(v(0))                       # minor_version
+    p.uint(profile)
+    p.uint(v(0))                       # level
+    p.uint(v(0) if huge and rng.random() < 0.3 else 0)   # base_video_format (unknown -> custom)
+    p.bit(1); p.uint(width if width is not None else v(8)); p.uint(height if height is not None else v(4))
+    cdf = rng.random() < 0.8
+    p.bit(cdf)
+    if cdf:
+        p.uint(0 if width is not None else rng.choice([0, 1, 2]))
+    ss = rng.random() < 0.5
+    p.bit(ss)
+    if ss:
+        p.uint(v(0) if huge and rng.random() < 0.3 else rng.choice([0, 1]))
+    fr = rng.random() < 0.8
+    p.bit(fr)
+    if fr:
+        if rng.random() < 0.7:
+            p.uint(0); p.uint(v(25)); p.uint(v(1))
+        else:
+            p.uint(v(3) if huge else rng.randrange(1, 12))
+    ar = rng.random() < 0.8
+    p.bit(ar)
+    if ar:
+        if rng.random() < 0.7:
+            p.uint(0); p.uint(v(1)); p.uint(v(1))
+        else:
+            p.uint(v(1) if huge else rng.randrange(1, 7))
+    ca = rng.random() < 0.8
+    p.bit(ca)
+    if ca:
+        for _ in range(4):
+            p.uint(v(2))
+    sr = rng.random() < 0.8
+    p.bit(sr)
+    if sr:
+        if rng.random() < 0.7:
+            p.uint(0)
+            for _ in range(4):
+                p.uint(v(128))
+        else:
+            p.uint(v(1) if huge else rng.randrange(1, 9))
+    cs = rng.random() < 0.6
+    p.bit(cs)
+    if cs:
+        idx = 0 if rng.random() < 0.6 else (v(1) if huge else rng.randrange(1, 8))
+        p.uint(idx)
+        if idx == 0:
+            for _ in range(3):
+                f = rng.random() < 0.7
+                p.bit(f)
+                if f:
+                    p.uint(v(1) if huge and rng.random() < 0.5 else rng.randrange(0, 4))
+    p.uint(0 if width is not None else (v(0) if huge and rng.random() < 0.3 else rng.choice([0, 1])))   # picture_coding_mode
+    p.align()
+    return p.bytes()
+
+
+def pack_transform_parameters(rng, p, profile, huge, major=3, slices=None, prefix=0, scaler=1, sb=None):
+    p.uint(rng.randrange(0, 7))                       # wavelet_index
+    custom_qm = huge and rng.random() < 0.4
+    depth = 0 if slices is not None else (rng.randrange(0, 3) if custom_qm or not huge else boundary(rng))
+    p.uint(depth)
+    depth_ho = 0
+    if major >= 3:
+        a = slices is None and rng.random() < 0.5
+        p.bit(a)
+        if a:
+            p.uint(boundary(rng) if huge else rng.randrange(0, 7))
+        b = slices is None and rng.random() < 0.5
+        p.bit(b)
+        if b:
+            depth_ho = rng.randrange(0, 3) if custom_qm or not huge else boundary(rng)
+            p.uint(depth_ho)
+    if slices is not None:
+        p.uint(slices[0]); p.uint(slices[1])
+    else:
+        p.uint(boundary(rng)); p.uint(boundary(rng))
+    if profile == 0:
+        if sb is not None:
+            p.uint(sb); p.uint(1)
+        else:
+            p.uint(boundary(rng)); p.uint(boundary(rng))
+    else:
+        if slices is not None:
+            p.uint(prefix); p.uint(scaler)
+        else:
+            p.uint(boundary(rng)); p.uint(boundary(rng))
+    p.bit(custom_qm)
+    if custom_qm:
+        n = 1 + depth_ho + 3 * depth
+        for _ in range(n):
+            p.uint(boundary(rng))
+
+
+def huge_streams(rng, n):
+    """[(label, bytes)]: parseable streams whose exp-Golomb fields hold boundary values up to ~2^200"""
+    out = []
+    for i in range(n):
+        kind = i % 4
+        if kind == 0:
+            # a sequence header full of huge values
+            body = pack_sequence_header(rng, True, profile=rng.choice([0, 3, 3]))
+            data = pack_unit(0x00, body, 0) + parse_info_bytes(0x10, 0, 13 + len(body))
+            out.append(("huge:sequence_header", data))
+        elif kind == 1:
+            # a fragment carrying only (huge) transform parameters
+            profile = rng.choice([0, 3])
+            hdr = pack_sequence_header(rng, False, profile=profile)
+            p = Packer()
+            p.nbits(32, rng.randrange(1 << 32)); p.nbits(16, rng.randrange(1 << 16)); p.nbits(16, 0)
+            pack_transform_parameters(rng, p, profile, True)
+            p.align()
+            frag = p.bytes()
+            data = pack_unit(0x00, hdr, 0) + pack_unit(0xCC if profile == 0 else 0xEC, frag, 13 + len(hdr))
+            data += parse_info_bytes(0x10, 0, 13 + len(frag))
+            out.append(("huge:fragment_transform_parameters", data))
+        elif kind == 2:
+            # an HQ picture, 2x1 pixels, one slice, huge coefficients
+            scaler = rng.choice([1, 2, 3])
+            prefix = rng.choice([0, 0, 2])
+            hdr = pack_sequence_header(rng, False, profile=3, width=2, height=1)
+            p = Packer()
+            p.nbits(32, rng.randrange(1 << 32))
+            pack_transform_parameters(rng, p, 3, False, slices=(1, 1), prefix=prefix, scaler=scaler)
+            p.align()
+            for _ in range(prefix):
+                p.nbits(8, rng.randrange(256))
+            p.nbits(8, rng.randrange(256))            # qindex
+            for _comp in range(3):
+                c = Packer()
+                for _ in range(2):
+                    c.sint(boundary(rng) * rng.choice([1, -1]))
+                for _ in range(rng.choice([0, 0, 3, 9])):
+                    c.bit(rng.random() < 0.5)
+                while len(c.b) % (8 * scaler):
+                    c.bit(rng.random() < 0.5)
+                ln = len(c.b) // (8 * scaler)
+                if ln > 255:
+                    c.b = c.b[: 255 * 8 * scaler]
+                    ln = 255
+                p.nbits(8, ln)
+                p.b.extend(c.b)
+            pic = p.bytes()
+            data = pack_unit(0x00, hdr, 0) + pack_unit(0xE8, pic, 13 + len(hdr)) + parse_info_bytes(0x10, 0, 13 + len(pic))
+            out.append(("huge:hq_coefficients", data))
+        else:
+            # an LD picture, 2x1 pixels, one slice of sb bytes, huge coefficients
+            sb = rng.choice([40, 120, 250])
+            hdr = pack_sequence_header(rng, False, profile=0, width=2, height=1)
+            p = Packer()
+            p.nbits(32, rng.randrange(1 << 32))
+            pack_transform_parameters(rng, p, 0, False, slices=(1, 1), sb=sb)
+            p.align()
+            length_bits = (8 * sb - 7 - 1).bit_length()
+            y = Packer()
+            for _ in range(2):
+                y.sint(boundary(rng, 8 * sb // 8) * rng.choice([1, -1]))
+            for _ in range(rng.choice([0, 5])):
+                y.bit(rng.random() < 0.5)
+            left = 8 * sb - 7 - length_bits
+            ybits = y.b[:left]
+            p.nbits(7, rng.randrange(128))
+            p.nbits(length_bits, len(ybits) if rng.random() < 0.8 else min((1 << length_bits) - 1, len(ybits) + left))
+            p.b.extend(ybits)
+            c = Packer()
+            for _ in range(4):
+                c.sint(boundary(rng, 8 * sb // 8) * rng.choice([1, -1]))
+            cb = (c.b + [rng.randrange(2) for _ in range(left)])[: left - len(ybits)]
+            p.b.extend(cb)
+            assert len(p.b) % 8 == 0
+            pic = p.bytes()
+            data = pack_unit(0x00, hdr, 0) + pack_unit(0xC8, pic, 13 + len(hdr)) + parse_info_bytes(0x10, 0, 13 + len(pic))
+            out.append(("huge:ld_coefficients", data))
+    return out
+
+
+# --------------------------------------------------------------------------------------------
 # mutants
 # --------------------------------------------------------------------------------------------
 def int_leaves(I, node, path=()):
@@ -535,7 +763,7 @@ def framework_oracle(ctx, rng, n):
         prog, feats = C21.gen_program(rng, 0.005)
         if "is_target_complete" in feats or "negative-length" in feats:
             continue
-        data = C21.random_bytes(rng, rng.choice([4, 12, 40]))
+        data = C21.random_bytes(rng, rng.choice([4, 12, 40, 64]))
         do, des = C21.run_des(J, prog, data)
         if do[0] != "ok" or do[3] != 0:
             ctx.count(1, bucket="framework/unparseable")
@@ -622,6 +850,10 @@ def run(ctx):
     # ---- hand-made streams -------------------------------------------------------------------
     for label, data in handmade(rng):
         run_case(bytes(bytearray(data)), "handmade:" + label)
+
+    # ---- hand-packed streams with huge exp-Golomb values ---------------------------------------
+    for label, data in huge_streams(rng, ctx.pick(240, 4000)):
+        run_case(bytes(bytearray(data)), label)
 
     # ---- encoder output and mutants ------------------------------------------------------------
     nconf = ctx.pick(160, 1500)
